@@ -220,8 +220,31 @@ def _compile_any_defined_by_type(type_, choices):
         type_['choices'][key] = parse_string(specification)['A']['types']['B']
 
 
+def _reset_any_defined_by_choices(item):
+    """Forget the choices an earlier compilation of the same
+    specification dictionary wrote into it.
+
+    """
+
+    if isinstance(item, dict):
+        if item.get('type') == 'ANY DEFINED BY' and 'choices' in item:
+            item['choices'] = {}
+
+        for value in item.values():
+            _reset_any_defined_by_choices(value)
+    elif isinstance(item, list):
+        for value in item:
+            _reset_any_defined_by_choices(value)
+
+
 def _compile_any_defined_by_choices(specification,
                                     any_defined_by_choices):
+    for module in specification.values():
+        _reset_any_defined_by_choices(module.get('types'))
+
+    if not any_defined_by_choices:
+        return
+
     for location, choices in any_defined_by_choices.items():
         module_name = location[0]
         type_names = location[1:-1]
@@ -311,9 +334,8 @@ def compile_dict(specification,
     except KeyError:
         raise CompileError("Unsupported codec '{}'.".format(codec))
 
-    if any_defined_by_choices:
-        _compile_any_defined_by_choices(specification,
-                                        any_defined_by_choices)
+    _compile_any_defined_by_choices(specification,
+                                    any_defined_by_choices)
 
     return Specification(codec.compile_dict(specification,
                                             numeric_enums),
